@@ -160,6 +160,7 @@ class FnLower:
     def init_field(self, fd, e):
         L = self.L
         t = L.tinfo(fd['type'])
+        while t[0] == 'alias': t = L.tparse(t[1])
         name = fd['name']
         if e.get('kind') == 'CXXDefaultInitExpr':
             init = None
@@ -679,9 +680,17 @@ class FnLower:
             if t[0] == 'rec':
                 rec = t[1]
                 bs = self.idx.bases(rec); fs = self.idx.fields(rec)
-                slots = [('_b%d' % i, ('rec', br) if br is not None else L.tinfo(b['type'])) for i, (b, br) in enumerate(bs)] + [(f['name'], L.tinfo(f['type'])) for f in fs]
+                slots = [('_b%d' % i, ('rec', br) if br is not None else L.tinfo(b['type']), None) for i, (b, br) in enumerate(bs)] + [(f['name'], L.tinfo(f['type']), f) for f in fs]
                 if len(items) > len(slots): self.unsupported('initialiser list too long')
-                for (nm, ft), it in zip(slots, items):
+                for (nm, ft, fdecl), it in zip(slots, items):
+                    if self.strip(it).get('kind') == 'CXXDefaultInitExpr':
+                        # aggregate initialisation leaves this member to its default member initialiser
+                        ini = None
+                        for c in (fdecl or {}).get('inner', []):
+                            if isinstance(c, dict) and c.get('kind') and not c['kind'].endswith('Attr'): ini = c
+                        if ini is None: self.unsupported('default member initialiser of %s not in dump' % nm)
+                        it = ini
+                    while ft[0] == 'alias': ft = L.tparse(ft[1])
                     self.init_slot('(%s)->%s' % (target, nm), ft, it)
                 return
             if t[0] == 'stdarray':
